@@ -36,6 +36,7 @@ EXTENDS Serde
 
 (* ---- names ---- *)
 nX == <<120>>  nY == <<121>>  nA == <<97>>  nT == <<116>>  nC == <<99>>  nId == <<105, 100>>
+nNote == <<110, 111, 116, 101>>
 nP == <<112>>  nE == <<101>>  nO == <<111>>  nD == <<100>>  nK == <<107>>
 vUnit == <<85, 110, 105, 116>>  vNew == <<78, 101, 119>>  vTup == <<84, 117, 112>>  vStr == <<83, 116, 114>>
 vOpt == <<79, 112, 116>>  vNil == <<78, 105, 108>>  vRed == <<82, 101, 100>>  vBlue == <<66, 108, 117, 101>>
@@ -82,6 +83,9 @@ TSeq(x) == [k |-> "seq", x |-> x]
 TTup(xs) == [k |-> "tuple", xs |-> xs]                       \* tuples, tuple structs, arrays [T; n]
 TMap(key, x) == [k |-> "map", key |-> key, x |-> x]          \* key: a type that reads a string
 TStruct(fs) == [k |-> "struct", fs |-> fs]
+TStructDeny(fs) == [k |-> "struct", fs |-> fs, deny |-> TRUE]    \* #[serde(deny_unknown_fields)]: a member that names no field is an error
+Deny(T) == "deny" \in DOMAIN T
+Surplus(T, v) == Deny(T) /\ \E i \in DOMAIN v.o : \A j \in DOMAIN T.fs : T.fs[j].f # v.o[i].k
 Fld(name, ty) == [f |-> name, ty |-> ty, def |-> FALSE]
 FldDefault(name, ty, img) == [f |-> name, ty |-> ty, def |-> TRUE, dimg |-> img]
 TEnum(vs) == [k |-> "enum", vs |-> vs]                       \* externally tagged (serde's default)
@@ -140,7 +144,8 @@ Dec(T, v) ==
     [] T.k = "map" -> IF v.t # "obj" THEN Err
                       ELSE Gather([i \in DOMAIN v.o |-> IF IsOk(Dec(T.key, JStr(v.o[i].k))) THEN Dec(T.x, v.o[i].v) ELSE Err],
                                   LAMBDA imgs : JObj([i \in DOMAIN v.o |-> JMem(v.o[i].k, imgs[i])]))
-    [] T.k = "struct" -> IF v.t = "obj" THEN FieldsFromObj(T.fs, v) ELSE IF v.t = "arr" THEN FieldsFromArr(T.fs, v.a) ELSE Err
+    [] T.k = "struct" -> IF v.t = "obj" THEN (IF Surplus(T, v) THEN Err ELSE FieldsFromObj(T.fs, v))
+                         ELSE IF v.t = "arr" THEN FieldsFromArr(T.fs, v.a) ELSE Err
     [] T.k = "enum" ->
          IF v.t = "str" THEN (IF VariantNamed(T.vs, v.s).kind = "unit" THEN Ok(v) ELSE Err)     \* a bare name is a unit variant only
          ELSE IF v.t = "obj" /\ Len(v.o) = 1
@@ -252,7 +257,7 @@ AnyL1(T, v, D) ==
               CASE T.k = "map" ->                                                        \* keys as Variable::String (:929), values as they are
                      Gather([i \in DOMAIN v.o |-> IF IsOk(DecL1(T.key, JStr(v.o[i].k), D)) THEN DecL1(T.x, v.o[i].v, D) ELSE Err],
                             LAMBDA imgs : JObj([i \in DOMAIN v.o |-> JMem(v.o[i].k, imgs[i])]))
-                [] T.k = "struct" -> VisitMapFields(T.fs, v, D)
+                [] T.k = "struct" -> IF Surplus(T, v) THEN Err ELSE VisitMapFields(T.fs, v, D)     \* the derived field visitor refuses the key
                 [] T.k = "firstentry" ->                                                 \* the visitor reads one entry and returns
                      IF Len(v.o) = 0 THEN Err
                      ELSE MapChecked([used |-> 1, res |-> Then(DecL1(T.x, v.o[1].v, D), LAMBDA img : Single(v.o[1].k, img))], Len(v.o), D)
@@ -280,6 +285,7 @@ I32 == TInt("i32")
 Point == TStruct(<<Fld(nX, I32), Fld(nY, I32)>>)
 EType == TEnum(<<VUnit(vUnit), VNew(vNew, I32), VTup(vTup, <<I32, TString>>), VStruct(vStr, <<Fld(nA, TBool)>>), VNew(vOpt, TOpt(I32)), VNew(vNil, TUnit)>>)
 UserId == TNew(TString)
+Strict == TStructDeny(<<Fld(nId, I32), FldDefault(nNote, TOpt(TString), JNull)>>)
 Color == TEnum(<<VUnit(vRed), VUnit(vBlue)>>)
 IT == TITag(nT, <<VStruct(vA, <<Fld(nX, I32)>>), VUnit(vB)>>)
 AT == TATag(nT, nC, <<VStruct(vA, <<Fld(nX, I32)>>), VUnit(vB), VTup(vC, <<I32, I32>>)>>)
@@ -292,7 +298,8 @@ Zoo == [ bool |-> TBool, i8 |-> TInt("i8"), u8 |-> TInt("u8"), i32 |-> I32, i64 
          OptE |-> TOpt(EType), VecPoint |-> TSeq(Point), MapUserIdVecU32 |-> TMap(UserId, TSeq(TInt("u32"))), MapCharI32 |-> TMap(TChar, I32),
          MapColorI32 |-> TMap(Color, I32), Flat |-> TFlat(<<Fld(nId, I32)>>, I32), VecUserId |-> TSeq(UserId), ArrI32x2 |-> TTup(<<I32, I32>>),
          BoxPoint |-> TNew(Point), TupUserIdI32 |-> TTup(<<UserId, I32>>), MapStringOptPoint |-> TMap(TString, TOpt(Point)),
-         IT |-> IT, AT |-> AT, UT |-> UT, FirstEntry |-> TFirstEntry(I32), VecIT |-> TSeq(IT) ]
+         IT |-> IT, AT |-> AT, UT |-> UT, FirstEntry |-> TFirstEntry(I32), VecIT |-> TSeq(IT),
+         Strict |-> Strict, VecStrict |-> TSeq(Strict) ]
 ZooNames == DOMAIN Zoo
 
 (***************************************************************************)
